@@ -595,3 +595,67 @@ Proof.
         -- apply agree_refl.
 Qed.
 End CopyMoveExec.
+
+(* ---- RelocateCreate and Relocate(range) ------------------------------------------------------------ *)
+Theorem relocate_create_spec : forall c src dst n (creator : loc -> M unit) newl fp P R s,
+  exec_spec (creator newl) fp P R ->
+  (forall j, j < n -> ~ fp (src j) /\ ~ fp (dst j)) ->
+  range_pre src dst n (hp s) -> P (hp s) ->
+  wp (relocate_create c src dst n creator newl) s
+     (fun _ s' => moved_range src dst n fp (hp s) (hp s') /\ R (hp s) (hp s'))
+     (fun s' => unchanged (hp s) (hp s')).
+Proof. intros. unfold relocate_create. eapply relocate_exec_spec; eauto. Qed.
+
+Theorem relocate_range_spec : forall c src dst n s,
+  range_pre src dst n (hp s) ->
+  wp (relocate_range c src dst n) s
+     (fun _ s' => moved_range src dst n (fun _ => False) (hp s) (hp s'))
+     (fun s' => unchanged (hp s) (hp s')).
+Proof.
+  intros c src dst n s Hpre. unfold relocate_range. destruct (nothrow c) eqn:Hc.
+  - assert (c = NTM) by (destruct c; simpl in Hc; congruence). subst c.
+    destruct Hpre as [C SD DD SS].
+    apply wp_relocate_from.
+    + intros j Hj; apply C; lia. + intros; apply SD; lia. + intros; apply DD; lia. + intros; apply SS; lia.
+    + intros s' [R1 R2 R3 R4 R5]. split; auto.
+      * intros; apply R1; lia. * intros; apply R2; lia.
+      * intros l _ Hs Hd. apply R3; intros; [apply Hs|apply Hd]; lia.
+      * intros r _. apply R5.
+  - destruct n as [|m].
+    + apply wp_ret. split; auto; try (intros; lia). apply agree_refl. intros r _; reflexivity.
+    + destruct Hpre as [C SD DD SS].
+      destruct (C 0 ltac:(lia)) as [V0s [V0d [[v M0s] M0d]]].
+      assert (Hne : src 0 <> dst 0) by (apply SD; lia).
+      apply wp_bind.
+      eapply wp_mono.
+      * eapply relocate_create_spec with (fp := two (src 0) (dst 0)).
+        -- apply (creator_move_spec c (src 0) (dst 0) v Hne).
+        -- intros j Hj. unfold two. split; intros [X|X].
+           ++ revert X. apply SS; lia.
+           ++ revert X. apply SD; lia.
+           ++ symmetry in X. revert X. apply SD; lia.
+           ++ revert X. apply DD; lia.
+        -- split.
+           ++ intros j Hj. apply C; lia.
+           ++ intros; apply SD; lia.
+           ++ intros; apply DD; lia.
+           ++ intros; apply SS; lia.
+        -- simpl. auto.
+      * intros _ s1 [[R1 R2 R3 R4 R5] [Rd Rs]]. simpl in *.
+        apply wp_destroy.
+        -- rewrite (agree_valid _ _ _ _ R4); auto.
+        -- rewrite Rs. destruct c; discriminate.
+        -- intros s2 H2. split.
+           ++ intros j Hj. rewrite (hq_mem _ _ H2). rewrite mem_hset_other by (intro X; symmetry in X; revert X; apply SD; lia).
+              destruct j as [|j]. { rewrite Rd; auto. } apply R1; lia.
+           ++ intros j Hj. rewrite (hq_mem _ _ H2). destruct j as [|j]. { apply mem_hset_same. }
+              rewrite mem_hset_other by (apply SS; lia). apply R2; lia.
+           ++ intros l _ Hs Hd. rewrite (hq_mem _ _ H2). rewrite mem_hset_other by (intro X; symmetry in X; revert X; apply Hs; lia).
+              apply R3.
+              ** unfold two. intros [X|X]; symmetry in X; revert X; [apply Hs|apply Hd]; lia.
+              ** intros; apply Hs; lia.
+              ** intros; apply Hd; lia.
+           ++ eapply agree_trans; [exact R4|]. destruct H2 as [_ Ha Hb Hn _]. split; [contradiction|exact Ha|exact Hb|exact Hn].
+           ++ intros r Hr. rewrite (hq_regs _ _ H2). simpl. apply R5; auto.
+      * intros s' H'. exact H'.
+Qed.
